@@ -334,11 +334,22 @@ def rule_merge_dedup(ctx: Ctx, rule="R-C18-7"):
         last = st[-1] if st else None  # document order (inlined code shares the line of the call it replaced)
         ok = False
         if last is not None:
-            v = last.value
-            inner = v.args[0] if isinstance(v, ast.Call) and dotted(v.func) in ("tuple", "list") and v.args else v
-            ok = isinstance(inner, ast.Call) and dotted(inner.func) in ("dict.fromkeys",) and norm(inner.args[0]) == f"{S}.{attr}"
+            # run through the assignments in order: concatenation -> duplicates possible; dict.fromkeys -> unique; an order-preserving filter
+            # of the field by itself (`tuple(e for e in self.f if ..)`) keeps whatever state it had
+            unique = False
+            for x in st:
+                v = x.value
+                inner = v.args[0] if isinstance(v, ast.Call) and dotted(v.func) in ("tuple", "list") and v.args else v
+                if isinstance(inner, ast.Call) and dotted(inner.func) in ("dict.fromkeys",) and norm(inner.args[0]) == f"{S}.{attr}":
+                    unique = True
+                elif isinstance(inner, (ast.GeneratorExp, ast.ListComp)) and len(inner.generators) == 1 and norm(inner.generators[0].iter) == f"{S}.{attr}" \
+                        and norm(inner.elt) == norm(inner.generators[0].target):
+                    pass
+                else:
+                    unique = False
+                last = x if not (isinstance(inner, (ast.GeneratorExp, ast.ListComp))) else last
             concat = any(isinstance(x.value, ast.BinOp) and isinstance(x.value.op, ast.Add) for x in st)
-            ok = ok and concat
+            ok = unique and concat
         ctx.ob(rule, f"models.CitationToken.merge/{attr}:deduplicated", ok,
                f"after concatenating the other token's {attr} the list is de-duplicated order-preservingly (dict.fromkeys): the same edition contributed by two "
                f"patterns counts once (last assignment: `{norm(last)[:70] if last is not None else 'none'}`)", node=last or fn, mod=m)
